@@ -87,7 +87,19 @@ TClose ==
     /\ l' = l + 1
     /\ UNCHANGED <<acc, derived, added>>
 
-TNext == TReset \/ TAdd \/ TClose
+\* the text report shows the same exact values
+TText ==
+    /\ IsEv(l, "TextReport")
+    /\ LET e == Ev(l) IN
+       /\ e.requests = acc.requests
+       /\ e.bytes_in = acc.bytesIn /\ e.bytes_out = acc.bytesOut
+       /\ CodesMatch(e.codes, acc.codes)
+       /\ {e.errors[i] : i \in 1..Len(e.errors)} = {acc.errors[i] : i \in 1..Len(acc.errors)}
+       /\ Len(e.errors) = Len(acc.errors)
+    /\ l' = l + 1
+    /\ UNCHANGED <<acc, derived, added>>
+
+TNext == TReset \/ TAdd \/ TClose \/ TText
 
 TSpec == TInit /\ [][TNext]_vars
 
